@@ -49,6 +49,12 @@ func eqAlphabet(c *ctx) []eqSym {
 			ra.Signature = s.SR.SignAlt("gca", hx.RefAuthSigningBytes(ra), 1)
 			s.Authorize(hx.FromRawAuth(ra))
 		}},
+		{"stolen-sig6", func(s *scn) { // the signature bytes of new1's authorization pasted onto an authorization for other equipment
+			genuine := hx.ToRawAuth(s.BuildAuth(base(1, "d1")))
+			forged := hx.ToRawAuth(s.BuildAuth(base(6, "d6")))
+			forged.Signature = genuine.Signature
+			s.Authorize(hx.FromRawAuth(forged))
+		}},
 		{"altered1", func(s *scn) { // valid signature, then one field changed
 			a := s.BuildAuth(base(5, "d5"))
 			a.Capacity++
@@ -133,6 +139,7 @@ func runEquip(c *ctx) error {
 		sq("new1", "new2", "report1", "report2", "c1-newkey", "restart", "report2"),
 		sq("new1", "new2", "report1", "resigned1", "restart", "report1", "restart", "dup1"),
 		sq("resigned1", "report1", "new1", "restart", "report1"),
+		sq("new1", "stolen-sig6", "restart", "stolen-sig6", "dup1", "stolen-sig6"),
 	)
 	nr := 30
 	if c.tier == "thorough" {
@@ -187,7 +194,12 @@ func runEquip(c *ctx) error {
 		// who is honoured now: authorizations, server entries and migration
 		// orders signed by each candidate key
 		for i, k := range []string{"temp", "gca2", "gca", "x1"} {
-			s.Authorize(s.BuildAuth(hx.AuthSpec{ID: uint32(20 + i), Key: fmt.Sprintf("h%d", i), Cap: 10, Signer: k}))
+			gen := s.BuildAuth(hx.AuthSpec{ID: uint32(20 + i), Key: fmt.Sprintf("h%d", i), Cap: 10, Signer: k})
+			s.Authorize(gen)
+			// the signature bytes just submitted, pasted onto an authorization for other equipment
+			forged := hx.ToRawAuth(s.BuildAuth(hx.AuthSpec{ID: uint32(40 + i), Key: fmt.Sprintf("hf%d", i), Cap: 10}))
+			forged.Signature = hx.ToRawAuth(gen).Signature
+			s.Authorize(hx.FromRawAuth(forged))
 			s.AuthorizeServer(s.BuildServer(hx.ServerSpec{Key: fmt.Sprintf("sv%d", i), Loc: "127.0.0.1", Ports: [3]uint16{1, 1, 1}, Signer: k}))
 			// new servers signed by the new GCA (valid), by the current GCA and unsigned (invalid)
 			for _, inner := range []string{"gca2", "gca", ""} {
